@@ -1939,6 +1939,7 @@ func (ls *LState) PCall(nargs, nret int, errfunc *LFunction) (err error) {
 							err = rcv.(*ApiError)
 							err.(*ApiError).StackTrace = ls.stackTrace(0)
 						}
+						ls.nccalls = nccalls
 						ls.stack.SetSp(sp)
 						ls.currentFrame = ls.stack.Last()
 						ls.closeUpvalues(base)
